@@ -371,6 +371,34 @@ example : safeSaveB (initFSx "conf" (some [1]) [("conf.tmp1", [5, 6, 7, 8])]) [9
 example : safeSaveB (initFSx "conf" (some [1]) [("conf.tmp1", [5, 6, 7, 8])]) [9] (repairedTrace "conf.tmp1" "conf" [9]) "conf"
     = true := by decide
 
+/-! ### partial success of a primitive: a short write that is not noticed -/
+
+/-- when the write accepted only `part` of the data and nobody noticed, the rest of the
+    repaired sequence runs on `part`: the truncated temp file is renamed over the target -/
+theorem short_write_exposes_truncated (fs0 : FS) (part : Bytes) (tmp t : Path) (hne : tmp ≠ t) :
+    some part ∈ crashTargets fs0 (repairedTrace tmp t part) t := by
+  apply mem_crashTargets_of_prefix _ t fs0 (repairedTrace tmp t part) (List.prefix_refl _)
+  have hd : (run fs0 (repairedTrace tmp t part)).disk t = some part := by
+    simp [repairedTrace, run, step, FS.flush, upd, overwrite_empty, overwrite_nil, Ne.symm hne]
+  have hp : (run fs0 (repairedTrace tmp t part)).pend t = [] := by
+    simp [repairedTrace, run, step, FS.flush, upd, Ne.symm hne]
+  rw [views_nopend _ _ hp, hd]; simp
+
+/-- **an unnoticed short write is not a safe save of `new`**: the trace that really happened is
+    the repaired sequence for `part ≠ new`; it leaves the target holding `part`, which is neither
+    the old nor the new content -/
+theorem short_write_not_safe (fs0 : FS) (old : Option Bytes) (new part : Bytes) (tmp t : Path)
+    (hne : tmp ≠ t) (hold : fs0.disk t = old) (hpend : fs0.pend t = [])
+    (hpart : part ≠ new) (hold' : old ≠ some part) :
+    ¬ SafeSave fs0 new (repairedTrace tmp t part) t := by
+  intro hs
+  rcases safe_atomic fs0 old new _ t hold hpend hs _ (short_write_exposes_truncated fs0 part tmp t hne) with h | h
+  · exact hold' h.symm
+  · exact hpart (by simpa using h)
+
+example : safeSaveB (initFS "conf" (some [1, 2, 3])) [9, 8, 7] (repairedTrace "conf.tmp1" "conf" [9, 8]) "conf" = false := by
+  decide
+
 /-- the driver prints `crashGroups`; flattened it is exactly `crashTargets` -/
 theorem crashGroups_flatten (tr : List Op) (t : Path) : ∀ fs : FS,
     (crashGroups fs tr t).flatten = crashTargets fs tr t := by
